@@ -15,7 +15,7 @@ import numpy as np
 from scipy.special import erf
 
 from simkit import procstate
-from simkit.core import Counter, EventLog, Violation, hash_array
+from simkit.core import library_raised, Counter, EventLog, Violation, hash_array
 from simkit.rngseam import BEHAVIOURS, RngSeam
 from simkit.store import SimStore, StoreSeam
 
@@ -936,7 +936,17 @@ class PoissonSeamEngine:
             (_setup_mol if "mol" in spec else _setup)(ctx, state)
             for op in spec["ops"]:
                 ctx.step += 1
-                OPS[op[0]](ctx, op, state)
+                try:
+                    OPS[op[0]](ctx, op, state)
+                except Exception as exc:  # noqa: BLE001
+                    # library code called directly by the harness (grid attributes, held potentials) failed
+                    if not library_raised(exc):
+                        raise
+                    if ctx.store.active():
+                        ctx.log.add(ctx.step, op[0], "library-raise-under-fault", type(exc).__name__)
+                        continue
+                    ctx.violate("library-raise", op[0], type(exc).__name__, f"library code called during {op[0]} raised {exc!r} outside the solve itself; the run ends here")
+                    return
             # the caller's one options dict must still be what the caller put there
             ctx.store.heal()
             _check_held_potentials(ctx, state, "end of run")
